@@ -32,7 +32,7 @@ vars == <<tag, kids, par, phase, insts, memo, nq, op>>
 View == <<tag, kids, par, phase, insts, memo, nq>>
 
 InnerTags == {"a", "b"}            \* entries that may have children
-LeafTags == {"ta", "__empty__"}    \* token without own node class / empty placeholder
+LeafTags == {"tra", "__empty__"}   \* token without own node class (its tag holds the root tag and an inner tag as substrings) / empty placeholder
 Entries == DOMAIN tag
 Root == 1
 
@@ -73,7 +73,7 @@ Pluck(n) == PluckAlong(Root, ChainOf(n))
 -----------------------------------------------------------------------------
 (* relatives: query.py *)
 
-Resolvable(t) == t \in {"r", "a", "b", "__empty__"}     \* tags with a registered node class ("ta" falls back)
+Resolvable(t) == t \in {"r", "a", "b", "__empty__"}     \* tags with a registered node class ("tra" falls back)
 RECURSIVE NearestResolvable(_)
 NearestResolvable(n) == IF n = 0 THEN 0 ELSE IF Resolvable(tag[n]) THEN n ELSE NearestResolvable(par[n])
 ParentOf(n) == NearestResolvable(par[n])                  \* 0 = NodeNotFound
